@@ -469,12 +469,11 @@ type c24Replay struct {
 
 func TestVerif(t *testing.T) {
 	vrt.Run(t, "C24", func(r *vrt.R) {
-		if c24SchedPass(r) {
-			return
-		}
 		var rp c24Replay
 		if r.ReplayInto(&rp) {
 			switch rp.Kind {
+			case "":
+				c24SchedRun(r) // a recorded schedule (sched.ReplayData)
 			case "cap":
 				if kind, desc := c24RunCap(*rp.Cap); kind != "" {
 					r.Violation(rp.Cap.Mode+"/"+kind, desc, rp)
@@ -517,5 +516,6 @@ func TestVerif(t *testing.T) {
 				r.Violation(c.Mode+"/"+kind, desc, c24Replay{Kind: "cap", Mode: c.Mode, Cap: &c})
 			}
 		}
+		c24SchedRun(r)
 	})
 }
